@@ -10,7 +10,7 @@
 using namespace opentelemetry;
 namespace sdkt = opentelemetry::sdk::trace;
 namespace sdkl = opentelemetry::sdk::logs;
-extern "C" { extern uint32_t rg_role; extern uint8_t *rg_lock_flag; extern uint32_t rg_lock_holder_is_me, rg_lock_held_by_other, rg_lock_quiet_after; }
+extern "C" { extern uint32_t rg_role; extern uint8_t *rg_lock_flag; extern uint32_t rg_lock_holder_is_me, rg_lock_held_by_other, rg_lock_quiet_after, rg_lock_interferences; }
 extern "C" void rg_consumer_take(uint64_t, uint64_t, uint64_t) {}   // queue role hook of the shared R/G environment: unused here
 static int g_exports; static bool g_export_holding = true, g_one_record = true;
 struct SRec : sdkt::Recordable {
@@ -59,6 +59,7 @@ struct LExp : sdkl::LogRecordExporter {
 static void any_lock_state(uint8_t *flag) {
   rg_lock_flag = flag;
   bool f = nondet_bool(); *rg_lock_flag = f; rg_lock_held_by_other = f; rg_lock_holder_is_me = 0;
+  rg_lock_interferences = 0;
   rg_lock_quiet_after = 2;      // bounded fairness, as in the C11 lock() query: after two interferences the other holder has released
 }
 ENTRY h_simple_span_rg() {
@@ -68,7 +69,13 @@ ENTRY h_simple_span_rg() {
   rg_role = 3;
   sp->OnEnd(std::move(r));
   rg_role = 0;
-  VASSERT(g_exports == 1 && g_one_record, "simple span processor: OnEnd exports the span, one record per call");
+  // a second call by the same thread, again from an arbitrary lock state (what happened in the first call must not let it skip the lock)
+  std::unique_ptr<sdkt::Recordable> r2(new SRec);
+  any_lock_state((uint8_t *)&sp->lock_.flag_);
+  rg_role = 3;
+  sp->OnEnd(std::move(r2));
+  rg_role = 0;
+  VASSERT(g_exports == 2 && g_one_record, "simple span processor: OnEnd exports the span, one record per call");
   VASSERT(g_export_holding, "simple span processor: Export runs only while this thread holds the processor's lock exclusively");
   VASSERT(!rg_lock_holder_is_me, "simple span processor: the lock is released when OnEnd returns");
 }
@@ -79,7 +86,12 @@ ENTRY h_simple_log_rg() {
   rg_role = 3;
   lp->OnEmit(std::move(r));
   rg_role = 0;
-  VASSERT(g_exports == 1 && g_one_record, "simple log processor: OnEmit exports the record, one record per call");
+  std::unique_ptr<sdkl::Recordable> r2(new LRec);
+  any_lock_state((uint8_t *)&lp->lock_.flag_);
+  rg_role = 3;
+  lp->OnEmit(std::move(r2));
+  rg_role = 0;
+  VASSERT(g_exports == 2 && g_one_record, "simple log processor: OnEmit exports the record, one record per call");
   VASSERT(g_export_holding, "simple log processor: Export runs only while this thread holds the processor's lock exclusively");
   VASSERT(!rg_lock_holder_is_me, "simple log processor: the lock is released when OnEmit returns");
 }
